@@ -299,9 +299,16 @@ func enhancedStatusCode(err error, supported bool) string {
 	if firstrune != 50 && firstrune != 52 && firstrune != 53 {
 		return ""
 	}
-	re, rerr := regexp.Compile(`\b([245])\.\d{1,3}\.\d{1,3}\b`)
+	// The enhanced status code is the first token of the reply text, directly after the reply code
+	// (RFC 2034). A token of the same form further down in the text (e.g. an IP address or a version
+	// number) is not an enhanced status code.
+	re, rerr := regexp.Compile(`^[245]\d{2}[ -]([245]\.\d{1,3}\.\d{1,3})(?:\s|$)`)
 	if rerr != nil {
 		return ""
 	}
-	return re.FindString(err.Error())
+	matches := re.FindStringSubmatch(err.Error())
+	if len(matches) < 2 {
+		return ""
+	}
+	return matches[1]
 }
